@@ -237,6 +237,7 @@ def unsqueeze_forward(a:np.ndarray, axis:'int | tuple'):
     return np.expand_dims(a, axis)
 
 def unsqueeze_backward(grad:np.ndarray, axis:'int | tuple'):
+    if isinstance(axis, list): axis = tuple(axis) # np.expand_dims accepted the list in the forward pass, np.squeeze needs a tuple
     return np.squeeze(grad, axis)
 
 # *************************
